@@ -75,6 +75,21 @@ def transcript(sc, d):
                         r.append(type(e).__name__)
                 icm.append(r)
         out['ic_metrics'] = icm
+        # IC over one lexicon seen through differently configured Wordnets (own relations only / borrowed
+        # through an expand lexicon): the calls are read-only, so their order must not matter
+        confs = [('b:1', 'a:1'), ('b:1', ''), ('a:1', ''), ('a:1', 'e:1')]
+        if REVERSED:
+            confs = confs[::-1]
+        icx = {}
+        for lexspec, exp in confs:
+            wx = wn.Wordnet(lexspec, expand=exp)
+            corpus_x = [str(x.forms()[0]) for x in wx.words()]
+            try:
+                fx = wn.ic.compute(corpus_x, wx, distribute_weight=False, smoothing=1.0)
+                icx[lexspec + '|' + exp] = {p: [[k, repr(v)] for k, v in d_.items()] for p, d_ in fx.items()}
+            except (wn.Error, KeyError) as e:
+                icx[lexspec + '|' + exp] = type(e).__name__
+        out['ic_by_configuration'] = [icx[a + '|' + b] for a, b in [('b:1', 'a:1'), ('b:1', ''), ('a:1', ''), ('a:1', 'e:1')]]
         # lookups with a lemmatizer
         lw = wn.Wordnet('a:1', lemmatizer=Morphy(wn.Wordnet('a:1')))
         out['lookups'] = [[q, [x.id for x in lw.words(q)], [x.id for x in lw.synsets(q)], [x.id for x in wn.words(q)]] for q in sc['queries']]
